@@ -1,8 +1,8 @@
 package checks
 
 import (
-	"bytes"
 	"bufio"
+	"bytes"
 	"encoding/json"
 	"encoding/xml"
 	"fmt"
